@@ -1,7 +1,7 @@
-// Verification hooks for the TCP transport (cfg(feature = "verif") only, adds code only):
-// `VerifTcpTransport` owns a real `TcpTransport` and forwards the crate-private `Transport`
-// trait methods and `Stream::poll_next` one to one, flattening `TransportEvent` to
-// (kind, connection id) and exposing a read-only dump of the bookkeeping maps.
+// Verification hooks for the WebSocket transport (cfg(feature = "verif") only, adds code only):
+// `VerifWsTransport` owns a real `WebSocketTransport` and forwards the crate-private `Transport`
+// trait methods and `Stream::poll_next` one to one, like `VerifTcpTransport` (whose event / state /
+// resolver types it shares).
 
 use super::*;
 
@@ -12,48 +12,10 @@ use crate::{
 
 use std::sync::atomic::{AtomicUsize, Ordering};
 
-/// `TransportEvent`, flattened.
-#[derive(Debug, Clone, Copy, PartialEq, Eq)]
-pub enum VerifTcpEvent {
-    PendingInbound(usize),
-    Opened(usize),
-    OpenFailure(usize),
-    /// Connection id, `endpoint.is_listener()`, the authenticated remote peer.
-    Established(usize, bool, PeerId),
-    DialFailure(usize),
-    Closed(usize),
-}
+pub use crate::transport::tcp::verif_transport::{VerifResolver, VerifTcpEvent, VerifTcpState};
 
-/// Read-only dump of the bookkeeping of `TcpTransport` (keys sorted).
-#[derive(Debug, Clone, PartialEq, Eq, Default)]
-pub struct VerifTcpState {
-    pub next_connection_id: usize,
-    pub pending_dials: Vec<usize>,
-    pub pending_inbound_connections: Vec<usize>,
-    pub pending_raw_connections: usize,
-    pub pending_connections: usize,
-    pub opened: Vec<usize>,
-    /// Connection id, `AbortHandle::is_aborted()`.
-    pub cancel_futures: Vec<(usize, bool)>,
-    pub pending_open: Vec<usize>,
-}
-
-/// Shared DNS resolver handle (system configuration).
-#[derive(Clone)]
-pub struct VerifResolver(Arc<TokioResolver>);
-
-impl VerifResolver {
-    pub fn new() -> Option<Self> {
-        Some(Self(Arc::new(TokioResolver::builder_tokio().ok()?.build().ok()?)))
-    }
-
-    pub(crate) fn handle(&self) -> Arc<TokioResolver> {
-        self.0.clone()
-    }
-}
-
-pub struct VerifTcpTransport {
-    inner: TcpTransport,
+pub struct VerifWsTransport {
+    inner: WebSocketTransport,
     counter: Arc<AtomicUsize>,
     peer: PeerId,
     _rx: tokio::sync::mpsc::Receiver<crate::transport::manager::TransportManagerEvent>,
@@ -65,7 +27,7 @@ fn keys<V>(map: &HashMap<ConnectionId, V>) -> Vec<usize> {
     keys
 }
 
-impl VerifTcpTransport {
+impl VerifWsTransport {
     /// Build the transport the way `Litep2p::new` does: a `TransportHandle` sharing the
     /// connection-id counter with its owner, `TransportBuilder::new`.
     pub fn new(
@@ -86,7 +48,7 @@ impl VerifTcpTransport {
             protocols: HashMap::new(),
         };
         let (inner, addresses) =
-            <TcpTransport as TransportBuilder>::new(handle, config, resolver.0.clone())?;
+            <WebSocketTransport as TransportBuilder>::new(handle, config, resolver.handle())?;
 
         Ok((
             Self {
